@@ -503,6 +503,20 @@ def execute_event(ev):
                 P.formula("aa:GAVL", table=t) if hasattr(P, "fasta") or True else None,
                 formulas.formula_grammar(table=t).parse_string("CoO", parse_all=True)[0]]
         ok = all(_owner(a) is t for f in made if f is not None for a in f.atoms)
+        # ... and after every other table in existence has parsed (so that its parser exists, built before or after
+        # this table's): mixtures read with table=o hold o's atoms, the same mixtures read with table=t still hold t's
+        mixes = ["5wt% NaCl@2.16 // D2O@1.1", "20vol% Fe[56]@7 // Ni{2+}@8", "1um Si@2.33 // 2nm Co@8.9", "5 g NaCl@2.16 // 50 mL H2O@1",
+                 "50 wt% Co // Ti"]
+        for o in [pt().elements] + [x for _, x in sorted(_tables.items())]:
+            if o is t:
+                continue
+            try:
+                theirs = [P.formula("Co2O3", table=o)] + [P.formula(m, table=o) for m in mixes]
+            except Exception:
+                theirs = []
+            ok = ok and all(_owner(a) is o for f in theirs for a in f.atoms)
+            mine = [P.formula(m, table=t) for m in mixes]
+            ok = ok and all(_owner(a) is t for f in mine for a in f.atoms)
         return {"cls": "T" if ok else "F"}
     if op == "tcalc":
         # the owner of T changes some of its data and runs the calculators with table=T; nothing of it may show on
